@@ -8,6 +8,7 @@ package webserver
 import (
 	"crypto/sha256"
 	"encoding/hex"
+	"errors"
 	"fmt"
 	"net"
 	"os"
@@ -181,11 +182,18 @@ func TestVerif_C08_ApiReadsVsLogins(t *testing.T) {
 		}
 		creds := mkCreds()
 		nlogin := 0
+		lastRefusal := ""
 		login := func(c cred) (bool, string) {
 			nlogin++
 			lc := &loginClient{id: fmt.Sprintf("l%d-%s", nlogin, g)}
 			gg, err := group.AddClient(g, lc, group.ClientCredentials{Username: sp8(c.user), Password: c.pw})
 			if err != nil {
+				var na *group.NotAuthorisedError
+				if !errors.As(err, &na) {
+					// not a decision about the credentials (the definition could not be read, ...): nothing C08 speaks about
+					t.Fatalf("VERIF-HARNESS-ERROR: login %s failed for a reason other than authorisation: %v", c.label, err)
+				}
+				lastRefusal = err.Error()
 				return false, ""
 			}
 			lc.mu.Lock()
@@ -301,7 +309,10 @@ func TestVerif_C08_ApiReadsVsLogins(t *testing.T) {
 				ok, as := login(c)
 				plan = append(plan, fmt.Sprintf("login %s=%v", c.label, ok))
 				if ok != c.right {
-					t.Fatalf("C08: login %s (user %q, password %q) accepted=%v, the definition says %v; the file has not changed, only these requests were made: %v", c.label, c.user, c.pw, ok, c.right, plan)
+					fi, _ := os.Stat(fn)
+					cur, _ := os.ReadFile(fn)
+					t.Fatalf("C08: login %s (user %q, password %q) accepted=%v (%s), the definition says %v; requests so far: %v\n file now (%d bytes, mtime %v): %s", c.label, c.user, c.pw, ok, lastRefusal, c.right, plan,
+						len(cur), fi.ModTime().UnixNano(), cur)
 				}
 				if b, have := baseline[c.label]; ok && have && as != b {
 					t.Fatalf("C08: login %s is now admitted as %q, before any API request it was %q; requests: %v", c.label, as, baseline[c.label], plan)
